@@ -48,16 +48,25 @@ func processor(w, c, b, n, errAt int) func() vrt.Run {
 	return func() vrt.Run {
 		var got []string
 		var extra string
+		batchKept := true
 		return vrt.Run{Body: func() {
 			queue := make(chan concurrent.Operator, c)
 			p := concurrent.NewProcessor(queue, b, w)
 			sub := vrt.Go(func() {
+				// the operations are submitted as one batch; the batch is the caller's and stays as it was
+				var batch []concurrent.Operator
 				for i := 0; i < n; i++ {
 					var e error
 					if i == errAt {
 						e = errOp
 					}
-					p.Process(opv{i + 1, e})
+					batch = append(batch, opv{i + 1, e})
+				}
+				p.Process(batch...)
+				for i, o := range batch {
+					if v, ok := o.(opv); !ok || v.v != i+1 {
+						batchKept = false
+					}
 				}
 				p.Close()
 			})
@@ -92,6 +101,9 @@ func processor(w, c, b, n, errAt int) func() vrt.Run {
 			}
 			if extra != "<nil> <nil>" {
 				return "processor/not-closed", "receive after Wait returned " + extra + ", want closed channel", sig
+			}
+			if !batchKept {
+				return "processor/batch-modified", "Process changed the slice of operations it was given", sig
 			}
 			return "", "", sig
 		}}
